@@ -507,12 +507,23 @@ theorem pipe_fam_ge (d f : Nat) (p : CPipe d) (hp : WF d p) (hf : depthOf d p + 
   obtain ⟨k, rfl⟩ : ∃ k, f = k + 2 := ⟨f - 2, by omega⟩
   exact pipe_fam d k p hp (by omega) tail ht
 
-/-- **main theorem**: the text of every written pipeline parses to the pipeline it describes -/
-theorem parseVpl_render (d : Nat) (p : CPipe d) (hp : WF d p) : parseVpl (render d p) = .ok (treeOf d p) := by
+/-- the parser proper on the text of a written pipeline -/
+theorem parseVplCore_render (d : Nat) (p : CPipe d) (hp : WF d p) : parseVplCore (render d p) = .ok (treeOf d p) := by
   have hl := depthOf_len d p hp
   have := pipe_fam_ge d ((render d p).length + 1) p hp (by omega) [] StopP.nil
   simp only [List.append_nil] at this
-  simp only [parseVpl, this]
+  simp only [parseVplCore, this]
+
+/-- **main theorem**: the text of every written pipeline that passes the nesting guard of `parse_vpl`
+    (at most 64 brackets open at any point) parses to the pipeline it describes -/
+theorem parseVpl_render (d : Nat) (p : CPipe d) (hp : WF d p) (hd : bracketDepth (render d p) ≤ maxNesting) :
+    parseVpl (render d p) = .ok (treeOf d p) := by
+  simp only [parseVpl, hd, if_true, parseVplCore_render d p hp]
+
+/-- … and beyond the guard it is an error, whatever the text is -/
+theorem parseVpl_too_deep (s : Str) (h : maxNesting < bracketDepth s) : parseVpl s = .err := by
+  have : ¬ bracketDepth s ≤ maxNesting := by omega
+  simp only [parseVpl, this, if_false]
 
 /-- **trailing text**: a complete pipeline followed by `,` or `]` (an unbalanced closing bracket, a stray
     comma) is rejected -/
@@ -521,6 +532,7 @@ theorem parseVpl_trailing (d : Nat) (p : CPipe d) (hp : WF d p) (c : Char) (t : 
   have hl := depthOf_len d p hp
   have ht : StopP (c :: t) := by intro c' t' e; cases e; exact hc
   have := pipe_fam_ge d ((render d p ++ c :: t).length + 1) p hp (by simp only [List.length_append]; omega) (c :: t) ht
-  simp only [parseVpl, this]
+  simp only [parseVpl, parseVplCore, this]
+  split <;> rfl
 
 end VtModel.Vpl
